@@ -644,9 +644,15 @@ def check_c18(w):
     if R is None:
         return
     for t in w.transfers:
-        if t['future'] is not None and t['submitted_stamp'] < R and not t['future'].done():
+        if t['future'] is None or t.get('submitted_stamp', R) >= R:
+            continue
+        ev = getattr(t['future']._coordinator, '_done_event', None)
+        announced = ev.is_set() if ev is not None else True
+        if not t['future'].done() or not announced:
             w.violation('C18', 'not-done-at-shutdown-return',
-                        't%d not done when shutdown returned' % t['idx'])
+                        't%d is not finished although shutdown returned (done()=%s, '
+                        'result() would %s)' % (t['idx'], t['future'].done(),
+                                                'return' if announced else 'block forever'))
     for r in w.s3.log:
         if r['begin'] > R or (r['end'] or 0) > R:
             w.violation('C18', 'request-after-shutdown',
@@ -672,6 +678,8 @@ def check_c18(w):
                             't%d destination write at %d after shutdown returned at %d'
                             % (t['idx'], wr[0], R))
                 break
+    if w.sim.failure is not None and not w.benign_leftover:
+        return        # a hung run: only the barrier part above is meaningful
     # isolation / reusability: no own fault, no own cancel => must succeed
     for t in w.transfers:
         oc = t['outcome']
@@ -753,4 +761,5 @@ def evaluate(w):
     else:
         # a hung run: only oracles that are meaningful on partial histories
         check_effects(w)
+        check_c18(w)
     return w
